@@ -139,6 +139,14 @@ def canon_place(B, pl, depth=0, at=None):
                 continue
         if base[0] == 'local':
             d_ = B.single_def(base[1])
+            if d_ is None and isinstance(projs[0], str) and projs[0].startswith('as:') and len(projs) > 1:
+                # several definitions, all of them enum literals (one per arm of the match that chose the variant): behind the downcast
+                # `as V` the value can only be the one built as V
+                ds_ = B.defs().get(base[1], [])
+                if ds_ and all(x[0] == 's' and x[3]['rv']['k'] == 'agg' and x[3]['rv'].get('ak') == 'adt' and 'vi' in x[3]['rv'] for x in ds_) and len({x[3]['rv'].get('adt') for x in ds_}) == 1:
+                    pick_ = [x for x in ds_ if 'as:' + str(x[3]['rv'].get('var')) == projs[0]]
+                    if len(pick_) == 1 and _never_written_in_part(B, base[1]):
+                        d_ = pick_[0]
             if d_ and d_[0] == 's' and d_[3]['rv']['k'] == 'agg':
                 rv_ = d_[3]['rv']
                 if rv_.get('ak') == 'tuple' and isinstance(projs[0], str) and projs[0].isdigit() and int(projs[0]) < len(rv_['ops']):
